@@ -131,11 +131,12 @@ Definition both (p : step -> bool) (a b : step) : bool := p a && p b.
 Definition is_kind (k : kind) (s : step) : bool := kind_eqb (i_kind (st_inst s)) k && enabled (st_inst s).
 
 (** C11-F2: the same token at two introspection instances of one endpoint whose scope assertions differ *)
-Definition g_F2 (steps : list step) : bool :=
-  exists_pair (fun a b =>
-    both (is_kind KIntro) a b && String.eqb (q_cred (st_req a)) (q_cred (st_req b)) &&
-    ep_eqb (i_ep (st_inst a)) (i_ep (st_inst b)) &&
-    negb (strs_eqb (i_scopes (st_inst a)) (i_scopes (st_inst b)))) steps.
+Definition p_F2 (a b : step) : bool :=
+  both (is_kind KIntro) a b && String.eqb (q_cred (st_req a)) (q_cred (st_req b)) &&
+  ep_eqb (eff_ep (st_inst a)) (eff_ep (st_inst b)) &&
+  negb (strs_eqb (i_scopes (st_inst a)) (i_scopes (st_inst b))).
+
+Definition g_F2 (steps : list step) : bool := exists_pair p_F2 steps.
 
 Definition rendered_eqb (a b : option (alist * string)) : bool :=
   match a, b with
@@ -144,12 +145,13 @@ Definition rendered_eqb (a b : option (alist * string)) : bool :=
   end.
 
 (** C11-F3: the same subject, payload and values at two remote-authorizer instances whose expressions differ *)
-Definition g_F3 (steps : list step) : bool :=
-  exists_pair (fun a b =>
-    both (is_kind KRemote) a b &&
-    rendered_eqb (rendered (st_inst a) (st_req a)) (rendered (st_inst b) (st_req b)) &&
-    String.eqb (q_sub_json (st_req a)) (q_sub_json (st_req b)) &&
-    negb (list_eqb expr_eqb (i_exprs (st_inst a)) (i_exprs (st_inst b)))) steps.
+Definition p_F3 (a b : step) : bool :=
+  both (is_kind KRemote) a b &&
+  rendered_eqb (rendered (st_inst a) (st_req a)) (rendered (st_inst b) (st_req b)) &&
+  String.eqb (q_sub_json (st_req a)) (q_sub_json (st_req b)) &&
+  negb (list_eqb expr_eqb (i_exprs (st_inst a)) (i_exprs (st_inst b))).
+
+Definition g_F3 (steps : list step) : bool := exists_pair p_F3 steps.
 
 Definition opt_fields (H : string -> string) (s : step) : list fld :=
   if enabled (st_inst s) then
@@ -165,13 +167,14 @@ Definition auth_pre (a : auth) : list fld :=
 
 (** C11-F4: two look-ups whose pre-images (of the key or, for different endpoints, of the
     endpoint hash or of the authentication strategy's hash) may be shifted against each other *)
-Definition g_F4 (H : string -> string) (steps : list step) : bool :=
-  exists_pair (fun a b =>
-    both (fun s => enabled (st_inst s)) a b &&
-    (guard_shift (opt_fields H a) (opt_fields H b) ||
-     (negb (ep_eqb (i_ep (st_inst a)) (i_ep (st_inst b))) &&
-      (guard_shift (ep_fields H (st_ho a) (eff_ep (st_inst a))) (ep_fields H (st_ho b) (eff_ep (st_inst b))) ||
-       guard_shift (auth_pre (e_auth (i_ep (st_inst a)))) (auth_pre (e_auth (i_ep (st_inst b)))))))) steps.
+Definition p_F4 (H : string -> string) (a b : step) : bool :=
+  both (fun s => enabled (st_inst s)) a b &&
+  (guard_shift (opt_fields H a) (opt_fields H b) ||
+   (negb (ep_eqb (eff_ep (st_inst a)) (eff_ep (st_inst b))) &&
+    (guard_shift (ep_fields H (st_ho a) (eff_ep (st_inst a))) (ep_fields H (st_ho b) (eff_ep (st_inst b))) ||
+     guard_shift (auth_pre (e_auth (eff_ep (st_inst a)))) (auth_pre (e_auth (eff_ep (st_inst b))))))).
+
+Definition g_F4 (H : string -> string) (steps : list step) : bool := exists_pair (p_F4 H) steps.
 
 Definition forwards (s : step) : bool :=
   match i_kind (st_inst s) with
@@ -180,12 +183,22 @@ Definition forwards (s : step) : bool :=
   end.
 
 (** C11-F6: forwarded header / cookie VALUES differ between two look-ups of a
-    generic contextualizer or authenticator (only the names are in the key) *)
-Definition g_F6 (steps : list step) : bool :=
-  exists_pair (fun a b =>
-    both forwards a b &&
-    negb (alist_eqb (fwd (i_fwdh (st_inst a)) (q_headers (st_req a))) (fwd (i_fwdh (st_inst b)) (q_headers (st_req b))) &&
-          alist_eqb (fwd (i_fwdc (st_inst a)) (q_cookies (st_req a))) (fwd (i_fwdc (st_inst b)) (q_cookies (st_req b))))) steps.
+    generic contextualizer or authenticator (only the names are in the key of the
+    contextualizer; the authenticator's key has neither names nor values, nor its
+    payload template) *)
+Definition fwd_eqb (a b : step) : bool :=
+  alist_eqb (fwd (i_fwdh (st_inst a)) (q_headers (st_req a))) (fwd (i_fwdh (st_inst b)) (q_headers (st_req b))) &&
+  alist_eqb (fwd (i_fwdc (st_inst a)) (q_cookies (st_req a))) (fwd (i_fwdc (st_inst b)) (q_cookies (st_req b))).
+
+Definition p_F6 (a b : step) : bool :=
+  both forwards a b &&
+  negb (fwd_eqb a b &&
+        match i_kind (st_inst a) with
+        | KGen => option_eqb tpl_eqb (i_payload (st_inst a)) (i_payload (st_inst b))
+        | _ => true
+        end).
+
+Definition g_F6 (steps : list step) : bool := exists_pair p_F6 steps.
 
 Definition ep_uses_outputs (e : ep) : bool :=
   uses_outputs (e_url e) || existsb (fun kt => uses_outputs (snd kt)) (e_headers e).
@@ -198,6 +211,83 @@ Definition templated (s : step) : bool :=
 
 (** C11-F7: the endpoint's URL or header templates read `.Outputs`, which is not
     in the key, and the outputs differ between two look-ups *)
-Definition g_F7 (steps : list step) : bool :=
-  exists_pair (fun a b =>
-    both templated a b && negb (alist_eqb (q_outputs (st_req a)) (q_outputs (st_req b)))) steps.
+Definition p_F7 (a b : step) : bool :=
+  both templated a b && negb (alist_eqb (q_outputs (st_req a)) (q_outputs (st_req b))).
+
+Definition g_F7 (steps : list step) : bool := exists_pair p_F7 steps.
+
+(* ------------------------------------------------------------------ well-formed inputs *)
+
+(** maps are represented by association lists sorted strictly by key *)
+Fixpoint sortedb {A} (l : list (string * A)) : bool :=
+  match l with
+  | [] => true
+  | (k1, _) :: r => match r with
+                    | [] => true
+                    | (k2, _) :: _ => String.ltb k1 k2 && sortedb r
+                    end
+  end.
+
+Fixpoint no_char (c : ascii) (s : string) : bool :=
+  match s with
+  | EmptyString => true
+  | String x r => negb (Ascii.eqb x c) && no_char c r
+  end.
+
+(** a template piece whose Go text can be read back: literals are not empty and
+    contain no brace, names contain neither a blank nor a quote *)
+Definition name_ok (n : string) : bool := no_char " " n && no_char """" n.
+
+Definition wf_pieceb (p : piece) : bool :=
+  match p with
+  | PLit s => negb (String.eqb s "") && no_char "{" s
+  | PValue n | POutput n | PReqHeader n => name_ok n
+  | PSubjectID | PAuthData => true
+  end.
+
+Fixpoint no_adjacent_lits (t : tpl) : bool :=
+  match t with
+  | [] => true
+  | p :: r => match p, r with
+              | PLit _, PLit _ :: _ => false
+              | _, _ => no_adjacent_lits r
+              end
+  end.
+
+Definition wf_tplb (t : tpl) : bool := forallb wf_pieceb t && no_adjacent_lits t.
+
+Definition wf_instb (i : inst) : bool :=
+  let e := eff_ep i in
+  sortedb (e_headers e) && sortedb (i_values i) && wf_tplb (e_url e) &&
+  forallb (fun kt => wf_tplb (snd kt)) (e_headers e).
+
+(* ------------------------------------------------------------------ what a key is made of *)
+
+(** the components a cache key is derived from: the mechanism kind, the
+    endpoint (url, method, headers, authentication strategy), the strings
+    written (credential; or id, forwarded names, rendered payload, ttl bytes,
+    the subject's JSON) and the rendered values *)
+Record comps := { kc_kind : kind; kc_ep : ep; kc_strs : list string; kc_vals : alist }.
+
+Definition components (s : step) : option comps :=
+  let i := st_inst s in
+  let q := st_req s in
+  match i_kind i with
+  | KIntro => Some {| kc_kind := KIntro; kc_ep := eff_ep i; kc_strs := [q_cred q]; kc_vals := [] |}
+  | KGen => Some {| kc_kind := KGen; kc_ep := eff_ep i; kc_strs := [q_cred q]; kc_vals := [] |}
+  | KRemote =>
+    match rendered i q with
+    | None => None
+    | Some (vals, payload) =>
+      Some {| kc_kind := KRemote; kc_ep := eff_ep i;
+              kc_strs := [i_id i; join "," (i_up i); payload; le64 (ttl_val i); q_sub_json q]; kc_vals := vals |}
+    end
+  | KCtx =>
+    match rendered i q with
+    | None => None
+    | Some (vals, payload) =>
+      Some {| kc_kind := KCtx; kc_ep := eff_ep i;
+              kc_strs := [i_id i; join "," (i_fwdh i); join "," (i_fwdc i); payload; le64 (ttl_val i); q_sub_json q];
+              kc_vals := vals |}
+    end
+  end.
